@@ -87,3 +87,70 @@ class SpecMemory:
 
     def byte(self, a):
         return int(self.L.get(a, UInt8(0)))
+
+
+class SpecWordMemory:
+    """S-MEM restricted to word-contained accesses, with the logical contents kept per 32-bit word
+    (W: dict word address -> UInt32, absent = 0).  Used below the cache systems, whose block fills and write-backs are
+    aligned word accesses: one map access per word instead of four.  Data refinement of SpecMemory:
+    W[w] = sum(L[w+k] * 256**k); an access that is not word-contained is outside this class (raises ValueError --
+    the cache systems reject such accesses before they reach the lower memory, which C03 proves)."""
+
+    def __init__(self, W, lo):
+        self.W = W
+        self.lo = lo
+
+    def _word(self, w):
+        return int(self.W.get(w, UInt32(0)))
+
+    def _split(self, address, n):
+        from pyvc.api import split
+        a = address % TOP
+        lane = split(a % 4)
+        if lane + n > 4:
+            raise ValueError("SpecWordMemory: access crosses a word boundary")
+        if a < self.lo:
+            raise MemoryAddressError(address=a, min_address_incl=self.lo, max_address_incl=TOP - 1, memory_type="data memory")
+        return a - lane, lane
+
+    def _read(self, address, n):
+        w, lane = self._split(address, n)
+        return (self._word(w) // 256 ** lane) % 256 ** n
+
+    def _write(self, address, n, value):
+        w, lane = self._split(address, n)
+        old = self._word(w)
+        low = old % 256 ** lane
+        high = old // 256 ** (lane + n)
+        self.W[w] = UInt32(low + (value % 256 ** n) * 256 ** lane + high * 256 ** (lane + n))
+
+    def read_byte(self, address, update_statistics=True):
+        return UInt8(self._read(address, 1))
+
+    def read_halfword(self, address, update_statistics=True):
+        return UInt16(self._read(address, 2))
+
+    def read_word(self, address, update_statistics=True):
+        return UInt32(self._read(address, 4))
+
+    def write_byte(self, address, value, directly_write_to_lower_memory=False):
+        self._write(address, 1, int(value))
+
+    def write_halfword(self, address, value, directly_write_to_lower_memory=False):
+        self._write(address, 2, int(value))
+
+    def write_word(self, address, value, directly_write_to_lower_memory=False):
+        self._write(address, 4, int(value))
+
+    def reset(self):
+        self.W = {}
+
+    def get_address_range(self):
+        return range(self.lo, TOP)
+
+    def byte(self, a):
+        lane = a % 4
+        return (self._word(a - lane) // 256 ** lane) % 256
+
+    def word(self, w):
+        return self._word(w)
